@@ -217,13 +217,15 @@ pub fn gen_case(prop: &str, seed: u64, idx: u64, tier: &str) -> AnyCase {
         // a destination that delivers only what was flushed: a write that reports success must have flushed it all
         case.sink.commit_on_flush = true;
     }
-    if matches!(prop, "C01" | "C02" | "C06" | "C07" | "C08" | "C09") && case.mt_threads == 0 && rng.chance(1, 20) {
+    if matches!(prop, "C01" | "C02" | "C06" | "C07" | "C08" | "C09") && case.mt_threads == 0 && rng.chance(1, 10) {
         // F5 inside the content checks: one sink operation fails once. The write may fail (whether it must is C14's
         // business, such runs are skipped here) - but if it reports success, the file has to be right all the same
         case.sink.fail = Some(crate::model::FailOp {
             kind: rng.pick(&["write", "write", "write", "flush", "seek"]).to_string(),
             index: rng.below(48) as usize,
             sticky: false,
+            // three quarters of them are placed relative to what the fault-free run does, so that they always fire
+            frac_pm: if rng.chance(3, 4) { Some(rng.below(1000) as u16) } else { None },
         });
     }
     AnyCase::Pipe(case)
@@ -290,6 +292,29 @@ pub fn run_case(prop: &str, case: &AnyCase) -> RunReport {
         AnyCase::Avg(c) => clisim::run_avg(c),
         AnyCase::Pipe(pc) if prop == "C13" => pipeprops::run_c13(pc),
         AnyCase::Pipe(pc) => {
+            // F5 placed relative to the fault-free run: resolve the operation index first
+            let resolved;
+            let pc = match &pc.sink.fail {
+                Some(f) if f.frac_pm.is_some() => {
+                    let mut clean = pc.clone();
+                    clean.sink.fail = None;
+                    let o = pipesim::run_write(&clean, false);
+                    let (nw, ns, nf) = o.op_counts;
+                    let cnt = match f.kind.as_str() {
+                        "write" => nw,
+                        "seek" => ns,
+                        _ => nf,
+                    };
+                    let mut c2 = pc.clone();
+                    if let Some(f2) = c2.sink.fail.as_mut() {
+                        f2.index = (f.frac_pm.unwrap_or(0) as usize * cnt.max(1)) / 1000;
+                        f2.frac_pm = None;
+                    }
+                    resolved = c2;
+                    &resolved
+                }
+                _ => pc,
+            };
             let out = pipesim::run_write(pc, false);
             let mut py = false;
             let mut info_tool = false;
